@@ -172,7 +172,9 @@ pub fn locals_profile() -> Profile {
     p.min_local_funcs = 1;
     p.simd = true;
     // locals are also added to functions that came into being by replacing an import
-    p.ops = w(&[("add_local", 10), ("build_func", 2), ("inject", 2), ("replace_import", 2)]);
+    p.ops = w(&[("add_local", 10), ("build_func", 2), ("inject", 3), ("replace_import", 2)]);
+    // semantic-after on branches makes the library add its own i32 flag locals behind the user's
+    p.modes = vec![Mode::Before, Mode::After, Mode::Alternate, Mode::EmptyAlternate, Mode::SemanticAfter, Mode::SemanticAfter];
     p.mean_ops = 5;
     p
 }
@@ -236,6 +238,8 @@ pub fn special_profile() -> Profile {
     p.modes = ALL_MODES.to_vec();
     p.misapplied = true;
     p.clears = true;
+    // tags do not change what is encoded, but attaching one creates the request it belongs to
+    p.tags = true;
     p.mean_ops = 4;
     p
 }
@@ -578,7 +582,9 @@ pub fn judge_structural(id: &str, sc: &Scenario, res: &RunResult) -> Judged {
         harness_error = Some(format!("library refused a validated base module: {e}"));
     }
     for l in &res.logs {
-        if l.contains("BUG:") {
+        // (not when a rejected request left its tag behind: the log line is then about a request that WAS
+        // rejected at the call, which is what C22 asks for)
+        if l.contains("BUG:") && !res.tag_residue {
             let short: String = l.chars().take(50).collect();
             all.push(Mismatch::new("bug_log_line", &short, l.clone()));
         }
